@@ -89,3 +89,15 @@ def pathChain : List CMarket → Nat → Option Nat
     | some nxt => pathChain ms nxt
 
 end Gmx
+
+namespace Gmx
+
+/-- `find_first_market` (`first = true`) / `find_last_market`: the market account the enclosing instruction
+records an action's swap input into / pays its swap output out of. `supplied` = market tokens whose market
+account is among the remaining accounts. `some none` = "use the current market's own account". -/
+def findEndMarket (first : Bool) (path : List Nat) (cur : Nat) (supplied : List Nat) : Option (Option Nat) :=
+  match (if first then path.head? else path.getLast?) with
+  | none => some none
+  | some t => if supplied.contains t then some (some t) else if t = cur then some none else none
+
+end Gmx
